@@ -53,11 +53,13 @@ type tcase struct {
 	own      []common.Address // monitor's derivation, one per signature set
 	nearMiss []common.Address // accounts that must NOT be authorised (unless also in own)
 	mustPass bool             // the validator is expected to accept it
+	signers  []signerInfo     // keys behind every signature set (Ontology-format cases)
+	probes   []probe          // witness/… family: the CheckWitness questions the payload code asks
 }
 
 func setClass(s *sigasm.Set, encs []sigasm.KeyEnc) string {
 	if !s.Multi {
-		return fmt.Sprintf("single/%s/%s/%s", s.Keys[0].Kind, encs[0], s.Forms[0])
+		return fmt.Sprintf("single/%s/%s/%s", kindName(s.Keys[0].Kind), encs[0], s.Forms[0])
 	}
 	sorted := sigasm.SortKeys(s.Keys)
 	order := "sorted"
@@ -126,8 +128,12 @@ func body(rng *vf.RNG) *types.MutableTransaction {
 
 // assemble signs the sets (payer = account of a random set) and returns the case.
 func assemble(label string, sets []*sigasm.Set, encs [][]sigasm.KeyEnc, rng *vf.RNG) *tcase {
+	return assembleWith(label, sets, encs, body(rng), rng)
+}
+
+// assembleWith is assemble for a given unsigned transaction body.
+func assembleWith(label string, sets []*sigasm.Set, encs [][]sigasm.KeyEnc, mt *types.MutableTransaction, rng *vf.RNG) *tcase {
 	tc := &tcase{label: label, mustPass: true}
-	mt := body(rng)
 	mt.Payer = sets[rng.Intn(len(sets))].Account()
 	u, err := sigasm.Unsigned(mt)
 	if err != nil {
@@ -157,6 +163,7 @@ func assemble(label string, sets []*sigasm.Set, encs [][]sigasm.KeyEnc, rng *vf.
 			}
 		}
 		tc.own = append(tc.own, s.Account())
+		tc.signers = append(tc.signers, signerInfo{keys: s.Keys, m: s.M, multi: s.Multi})
 		tc.classes = append(tc.classes, setClass(s, encs[i]))
 		// near misses
 		tc.nearMiss = append(tc.nearMiss, sigasm.Hash160(s.Verify()))
@@ -288,8 +295,24 @@ func plan(rng *vf.RNG, total int) []gen {
 	for len(p) < total {
 		p = append(p, randomCase)
 	}
+	// (7) witness/…: the payload is NeoVM code that asks CheckWitness about every key the transaction was
+	// signed with (address form and every serialized-key form) and about non-signer keys.  Appended
+	// after the random shapes so that the case indices of (1)-(6) do not depend on it.
+	for rep := 0; rep < witnessReps(); rep++ {
+		for kd := txgen.Kind(0); int(kd) < numKindsAll; kd++ {
+			for role := 0; role < numRoles; role++ {
+				kd, role := kd, role
+				p = append(p, func(rng *vf.RNG) *tcase { return witnessCase(rng, kd, role) })
+			}
+		}
+	}
+	for j := 0; j < vf.N(150, 4000); j++ {
+		p = append(p, func(rng *vf.RNG) *tcase { return witnessCase(rng, -1, 0) })
+	}
 	return p
 }
+
+func witnessReps() int { return vf.N(3, 20) }
 
 // manySets: k signature sets, several of them for the SAME account (identical script, or the
 // same keys under another encoding / order).
@@ -337,6 +360,7 @@ func randomCase(rng *vf.RNG) *tcase {
 		tc := &tcase{label: "builder/" + d.Shape, raw: tx.ToArray(), mustPass: true}
 		for _, s := range append([]txgen.Signer{d.Payer}, d.Others...) {
 			tc.own = append(tc.own, sigasm.OwnAccount(s.Keys, s.M, len(s.Keys) > 1))
+			tc.signers = append(tc.signers, signerInfo{keys: s.Keys, m: s.M, multi: len(s.Keys) > 1})
 			tc.classes = append(tc.classes, "builder")
 			if len(s.Keys) > 1 {
 				tc.nearMiss = append(tc.nearMiss, sigasm.OwnAccount(s.Keys[:1], 1, false))
@@ -572,6 +596,8 @@ func (m *monitor) check(i int, tc *tcase, rng *vf.RNG) {
 			break
 		}
 	}
+	// the same question asked by NeoVM contract code, with addresses and with serialized keys
+	m.checkKeyForms(i, tc, t1, t2, t3, rng.Sub(7), wit)
 	if !inOwn[t1.Payer] {
 		r.Violation("accepted-but-payer-not-in-own-derivation:"+cls, "payer "+t1.Payer.ToHexString(), wit(nil))
 	}
@@ -645,7 +671,7 @@ func main() {
 		return
 	}
 	r := vf.NewRun("C17", "exploration",
-		"accepted transactions built (a) by the canonical builders (Ontology format, all key types, 1-4 sets; EIP-155) and (b) hand-assembled: sweep of every key type x every encoding the key decoder accepts (compressed, uncompressed, trailing bytes, P-256 long form) x PUSHBYTES/PUSHDATA1/2/4; m-of-n scripts with the keys in every permutation for n=2,3,4 and sampled permutations for n<=16, mixed key types incl. Ethereum-type keys, key count written as PUSHn / byte push / big-endian 2-byte push / PUSHDATA1; 1..16 signature sets incl. several sets of the same account under different scripts; then seeded random mixes. Each case: 3 in-process copies (unvalidated, validated, queried-then-validated) + decode in a child process, compared as address sets with the monitor's own derivation, and CheckWitness probed with all sets, near-miss accounts and random addresses. Distinct by (shape, case index); non-trivial when accepted by the validator")
+		"accepted transactions built (a) by the canonical builders (Ontology format, all key types, 1-4 sets; EIP-155) and (b) hand-assembled: sweep of every key type x every encoding the key decoder accepts (compressed, uncompressed, trailing bytes, P-256 long form) x PUSHBYTES/PUSHDATA1/2/4; m-of-n scripts with the keys in every permutation for n=2,3,4 and sampled permutations for n<=16, mixed key types incl. Ethereum-type keys, key count written as PUSHn / byte push / big-endian 2-byte push / PUSHDATA1; 1..16 signature sets incl. several sets of the same account under different scripts; then seeded random mixes; (c) witness/…: NeoVM-invoke transactions signed with every key type (P-224/256/384/521, SM2, Ed25519, Ethereum-type secp256k1, secp256k1 under the generic ECDSA label) as single signer, as m-of-n member and as both, whose payload code calls System.Runtime.CheckWitness with the account address and with every serialized form of every signer key, member key and non-signer keys of several types (executed by the production NeoVmService on every copy; the other NeoVM-invoke cases get a short foreign probing script). Each case: 3 in-process copies (unvalidated, validated, queried-then-validated) + decode in a child process, compared as address sets with the monitor's own derivation, and CheckWitness probed with all sets, near-miss accounts and random addresses. Distinct by (shape, case index); non-trivial when accepted by the validator")
 	scratch := vf.Scratch("c17")
 	defer os.RemoveAll(scratch)
 	rng := vf.NewRNG(vf.Seed())
@@ -733,11 +759,13 @@ func main() {
 		"accepted/several-sets-of-one-account", "accepted/builder/transfer", "accepted/builder/eip155-call", "accepted/builder/eip155-create", "accepted/raw/single", "accepted/raw/multi", "accepted/raw/several-sets", "not_accepted/byte-pushed-threshold-m"} {
 		r.Require(c, 3)
 	}
+	total = len(pl)
 	r.Require("accepted", int64(total*9/10))
 	r.Require("all_sets_equal_own_derivation", 1) // (on a defective tree this may legitimately be low; violations decide)
 	r.Require("witness_probes/expected_true", int64(total*9/10))
 	r.Require("child_compared", int64(total*9/10))
 	r.Require("child_compared_validated", int64(total/5))
+	requireKeyForms(r)
 	if n := r.Counter("not_accepted_unexpectedly"); n > 0 {
 		r.Inconclusive(fmt.Sprintf("%d generated transactions that should be valid were not accepted by the validator (see INFO lines)", n))
 	}
@@ -745,7 +773,8 @@ func main() {
 	r.Extra("exhaustive_scope", "every (key type, accepted key encoding, push form) single-signature script; every key permutation of the n=2,3,4 multi-signature groups")
 	r.Assume("address SETS are compared (the unvalidated path lists one entry per signature set, the validator de-duplicates)")
 	r.Assume("CheckWitness is probed with an empty contract-call stack (SmartContract{Config{Tx}}), i.e. only the signer-account clause")
-	r.Assume("secp256k1 keys of type PK_ECDSA (non-Ethereum) are not in the shared key pool and are not generated")
+	r.Assume("secp256k1 keys of type PK_ECDSA (non-Ethereum) are not in the shared key pool: they appear in the witness/… family only, and in multi-signature sets only next to keys of other algorithm labels")
+	r.Assume("contract-level CheckWitness is probed at the entry contract (no calling contract), i.e. only the signer-account clause; key arguments are well-formed encodings of on-curve keys")
 	os.RemoveAll(scratch)
 	r.Add("cases_with_more_signatures_than_threshold", surplusCases.Load())
 	r.Require("cases_with_more_signatures_than_threshold", 20)
